@@ -183,7 +183,8 @@ func encOrNil[T any](p *T, enc func(*T) []byte) string {
 }
 
 // canonDelta returns (digest of the delta as a set of changes, digest that also depends on the order
-// of the account/resource slices). Maps are never iterated into the hash: every element becomes one
+// of the account/resource slices; the latter is only counted - stat c20.order_differs - never asserted
+// or logged: the evaluator itself produces the resource slices in map-iteration order). Maps are never iterated into the hash: every element becomes one
 // line, the lines are sorted.
 func canonDelta(d ledgercore.StateDelta) (string, string) {
 	var lines, ordered []string
@@ -414,7 +415,9 @@ func (o *poolObs) TamperBlock(s *Sim, g *Gen, blk bookkeeping.Block) {
 			return
 		}
 	}
-	s.log.Add("  C20: r%d local=%v txns=%d delta=%s order=%s: %d paths agree", r, o.local, len(blk.Payset), paths[0].delta, paths[0].order, len(paths))
+	// the order of the resource slices inside a StateDelta is NOT logged: roundCowState.deltas() folds the
+	// application storage deltas by ranging over maps, so it varies from evaluation to evaluation
+	s.log.Add("  C20: r%d local=%v txns=%d delta=%s: %d paths agree", r, o.local, len(blk.Payset), paths[0].delta, len(paths))
 }
 
 // blockDiff names what differs between the proposed block a and the block b some path produced.
